@@ -74,7 +74,7 @@ Proof. vm_compute. repeat split; first [reflexivity | exact I | discriminate]. Q
 
 (** ---- function bodies REGENERATED from the source as glue terms (Gen/UtilsGlue.v), run by the interpreter of Model/GlueFun.v with
      the leaves of Model/GlueLeaves.v (callees mean their models), are the hand-written models ---- *)
-From TW Require Import Model.GlueLeaves Gen.UtilsGlue Proofs.GlueUtilsProofs.
+From TW Require Import Model.GlueLeaves Gen.UtilsGlue Proofs.GlueDispatchProofs.
 Open Scope string_scope.
 Theorem C10_glue_find_dispatch : forall x lk s fill,
   outcome_idx (call_fun utils_callf array_methf no_apply no_pow utils_functions "find_closest_element_indices_to_values"
